@@ -7,6 +7,12 @@ use proc_macro2::TokenStream;
 use quote::quote;
 
 pub fn to_rust_example_value(ty: &Ty, name: &str, spec: &HirSpec, use_ref_value: bool) -> TokenStream {
+    example_value(ty, name, spec, use_ref_value, &mut Vec::new())
+}
+
+/// `visiting` holds the models whose example is being built: a schema that refers back to one of
+/// them (directly, or through a list) ends the example there instead of recursing forever.
+fn example_value(ty: &Ty, name: &str, spec: &HirSpec, use_ref_value: bool, visiting: &mut Vec<String>) -> TokenStream {
     match ty {
         Ty::String => {
             let s = format!("your {}", name.to_case(Case::Lower));
@@ -25,7 +31,10 @@ pub fn to_rust_example_value(ty: &Ty, name: &str, spec: &HirSpec, use_ref_value:
             } else {
                 use_ref_value
             };
-            let inner = to_rust_example_value(inner, name, spec, use_ref_value);
+            if inner.inner_model().is_some_and(|m| visiting.contains(m)) {
+                return if use_ref_value { quote!(&[]) } else { quote!(vec![]) };
+            }
+            let inner = example_value(inner, name, spec, use_ref_value, visiting);
             if use_ref_value {
                 quote!(&[#inner])
             } else {
@@ -33,9 +42,13 @@ pub fn to_rust_example_value(ty: &Ty, name: &str, spec: &HirSpec, use_ref_value:
             }
         }
         Ty::Model(model) => {
+            if visiting.contains(model) {
+                return quote!(Default::default());
+            }
             let record = spec.get_record(model).expect("record not found");
             let force_ref = model.ends_with("Required");
-            match record {
+            visiting.push(model.clone());
+            let value = match record {
                 Record::Struct(Struct {
                     name: _name,
                     fields,
@@ -44,13 +57,17 @@ pub fn to_rust_example_value(ty: &Ty, name: &str, spec: &HirSpec, use_ref_value:
                 }) => {
                     let fields = fields.iter().map(|(name, field)| {
                         let not_ref = !force_ref || field.optional;
-                        let mut value = to_rust_example_value(&field.ty, name, spec, !not_ref);
-                        let name = name.to_rust_ident();
+                        let recursive = field.ty.inner_model().is_some_and(|m| visiting.contains(m));
+                        let ident = name.to_rust_ident();
+                        if field.optional && recursive {
+                            return quote!(#ident: None);
+                        }
+                        let mut value = example_value(&field.ty, name, spec, !not_ref, visiting);
                         if field.optional {
                             value = quote!(Some(#value));
                         }
-                        quote!(#name: #value)
-                    });
+                        quote!(#ident: #value)
+                    }).collect::<Vec<_>>();
                     let model = model.to_rust_struct();
                     quote!(#model{#(#fields),*}).into()
                 }
@@ -59,7 +76,7 @@ pub fn to_rust_example_value(ty: &Ty, name: &str, spec: &HirSpec, use_ref_value:
                     fields,
                     doc: _docs,
                 }) => {
-                    let fields = fields.iter().map(|f| to_rust_example_value(&f.ty, name, spec, false));
+                    let fields = fields.iter().map(|f| example_value(&f.ty, name, spec, false, visiting)).collect::<Vec<_>>();
                     let name = name.to_rust_struct();
                     quote!(#name(#(#fields),*))
                 }
@@ -71,14 +88,16 @@ pub fn to_rust_example_value(ty: &Ty, name: &str, spec: &HirSpec, use_ref_value:
                 }
                 Record::TypeAlias(name, HirField { ty, optional, .. }) => {
                     let not_ref = !force_ref || !optional;
-                    let ty = to_rust_example_value(ty, name, spec, not_ref);
+                    let ty = example_value(ty, name, spec, not_ref, visiting);
                     if *optional {
                         quote!(Some(#ty))
                     } else {
                         quote!(#ty)
                     }
                 }
-            }
+            };
+            visiting.pop();
+            value
         }
         Ty::Unit => quote!(()),
         Ty::Any(_) => quote!(serde_json::json!({})),
